@@ -1,5 +1,5 @@
 #!/usr/bin/env python3
-"""C07 -- composite fonts: segmentation, CID, Unicode follow CMap, ToUnicode, W/DW (DESIGN.md 3.C07)."""
+"""C07 -- composite fonts: segmentation, CID, Unicode follow CMap, ToUnicode, W/DW (DESIGN.md section 4, C07)."""
 import io
 import os
 import struct
@@ -48,7 +48,7 @@ MANIFEST_ENTRY = {
             "every kana/hangul/unified ideograph the platform codec can encode and the CMap maps must come back as the same "
             "character (known data deviations listed individually in known_findings.json).",
     "note": "Trusted: Coq kernel, hand model tied by differential runs, Python codecs as the independent reference.",
-    "design_ref": "DESIGN.md 3.C07",
+    "design_ref": "DESIGN.md section 4, C07",
 }
 
 
